@@ -7,8 +7,8 @@ V=${VERIF_ROOT:-$(cd "$(dirname "$0")/.." && pwd)}
 export VERIF_ROOT=$V
 mkdir -p $V/build $V/evidence $V/replays
 (cd $V/harness/extract && go build -o $V/build/extract .)
-# pinned driver: built from the committed (pinned) facts before anything is regenerated
-(cd $V && git checkout -- lean/CorsVerif/Gen/Facts.lean 2>/dev/null || true)
+# pinned driver: the model with the facts of the verified tree (pinned/Facts.lean), built before anything is regenerated
+cp $V/pinned/Facts.lean $V/lean/CorsVerif/Gen/Facts.lean
 (cd $V/lean && lake build driver && cp .lake/build/bin/driver $V/build/driver.pinned)
 $V/build/extract -repo /repo -out $V/lean/CorsVerif/Gen/Facts.lean
 (cd $V/lean && lake build CorsVerif driver)
